@@ -1,4 +1,5 @@
 import Driver.Pure
+import Driver.Seq
 
 open Qv.Driver
 
@@ -14,4 +15,8 @@ def main (args : List String) : IO UInt32 := do
   let stdout ← IO.getStdout
   match args with
   | ["pure"] => loop stdin stdout respondPure; return 0
-  | _ => IO.eprintln "usage: qvdrv pure < requests"; return 2
+  | ["seq", path] =>
+    let lines ← IO.FS.lines path
+    runSeq lines stdout
+    return 0
+  | _ => IO.eprintln "usage: qvdrv pure < requests | qvdrv seq <file>"; return 2
